@@ -298,6 +298,8 @@ def run(ctx):
     resulthistory.replay(ctx, ["rootfinder:broyden1", "rootfinder:newton", "equilibrium:anderson", "minimize:gd", "minimize:adam"], "rootloop")
     from vlib import layoutinv
     layoutinv.replay(ctx, ["rootfinder:broyden1", "rootfinder:newton", "equilibrium:anderson", "minimize:gd", "minimize:adam"], "rootloop")
+    from vlib import bufferreuse
+    bufferreuse.replay(ctx, ["rootfinder:broyden1", "equilibrium:anderson", "minimize:gd"], "rootloop")
     ctx.check_coverage(r, ["NlStart", "NlIter", "NlExhaust", "NlReturn", "AaStart", "AaIter", "AaExhaust", "AaReturn", "OptStart", "OptIter", "OptExhaust", "OptReturn"])
     for sw, inv in (("ReturnTested", None), ("ZeroResidualStops", "NoRaiseAtRoot"), ("EarlyFixedPoint", "SilentMeetsTol"),
                     ("WarnIffNotConverged", "WarnedIffNotConverged")):
